@@ -40,6 +40,8 @@ def run(ctx):
     r2_arithmetic(ctx)
     r3_index(ctx)
     r4_iteration(ctx)
+    from . import shared as _sh
+    _sh.check_stage_loop_complete(ctx, 'R2')
     # every range is exported from the same document: an export leaves nothing behind (no cached rows, no state) for the next
     from . import shared
     shared.effect_free(ctx, 'R5', [f'{N.PUBLIC}.dumps'],
